@@ -7,8 +7,11 @@ proof   : (T) destructor table of front/parser.y regenerated each run -> Props/C
           `sweep_frees_exactly_unreachable`) tied by harness/h_gcl.c <-> `nmdrv ledger`.
 testing : leak stream (harness/h_leak.c, ASan+LSan + exact malloc/free shim) over valid,
           token-mutated, ill-typed and missing-module sources; API history of DESIGN §7.8.
-The AST teardown cascade is NOT modelled: level "proof" holds for the table and the ledger,
-the property as a whole is partial."""
+          (T) ownership table of every `*_delete` / `*_new*` function of front/ and back/ regenerated each run from clang's AST
+          (gen/owntab.py -> Gen/OwnTab.lean) against the discipline Model/Own.lean: `owned_fields_released`, `no_double_release`,
+          `borrowed_never_released`, `constructors_fill_only_known_fields`, `retag_keeps_ownership_partial`, ...
+WHO calls the delete functions (typechecker early returns, teardown order) is not modelled: level "proof" holds for the tables
+and the ledger, the property as a whole is partial."""
 import json, os, re, shutil, sys, time
 from collections import Counter
 from concurrent.futures import ThreadPoolExecutor
@@ -16,6 +19,7 @@ from common import *
 import buildimpl
 sys.path.insert(0, os.path.join(VERIF, "gen"))
 import parsertab
+import owntab
 import leak_stream as ls
 import ledger_corr
 
@@ -23,7 +27,13 @@ PROP_MODULE = "NeverModel.Props.C16"
 PINNED_MODULE = "NeverModel.Props.C16Pinned"
 REQUIRED = ["Never.C16.destructor_table_complete_partial", "Never.C16.discardable_symbols_released_partial", "Never.C16.discardable_symbols_released",
             "Never.C16.handed_out_not_released", "Never.C16.no_destructor_on_unowned", "Never.C16.rule_actions_consume_rhs",
-            "Never.C16.ledger_balanced", "Never.C16.sweep_frees_exactly_unreachable", "Never.C16.gc_delete_releases_all"]
+            "Never.C16.ledger_balanced", "Never.C16.sweep_frees_exactly_unreachable", "Never.C16.gc_delete_releases_all",
+            # ownership table of the *_delete / *_new* functions (gen/owntab.py -> Gen/OwnTab.lean, discipline Model/Own.lean)
+            "Never.C16.owned_fields_released", "Never.C16.conditionally_owned_fields_released", "Never.C16.no_double_release",
+            "Never.C16.borrowed_never_released", "Never.C16.releases_use_the_deleter_of_the_type", "Never.C16.constructors_fill_only_known_fields",
+            "Never.C16.fresh_allocations_go_to_released_fields", "Never.C16.elsewhere_released_there", "Never.C16.retag_keeps_ownership_partial",
+            "Never.C16.unguarded_releases_never_null", "Never.C16.own_table_consistent",
+            "Never.C16.local_allocations_handed_on", "Never.C16.table_edges_match", "Never.C16.delete_frees_exactly_the_owned_tree", "Never.C16.delete_frees_nothing_twice_and_leaves_nothing"]
 # the exception lists of Props/C16.lean (kept in step with it; the Lean side is what is proved)
 KNOWN_MISSING = ["param_decl", "except"]
 KNOWN_LEAKING = []
@@ -135,6 +145,43 @@ def replay_rows(rep, exe, d, t, rows, rules):
             out.setdefault(sym, (False, "no block allocated for `%s` is left after a syntax error placed right after it (%d sources)" % (sym, len(ROW_TEMPLATES.get(sym, [])))))
     return out
 
+def own_probe():
+    """rows of the regenerated ownership table that fail a check of Model/Own.lean (`FAIL theorem | where | what` lines printed by
+    checks/own_probe.lean).  Needs Model/Own.lean to compile; returns (fail lines, wild-store lines, raw output)"""
+    rc, out = lake_build(["NeverModel.Model.OwnSem"])
+    if rc != 0:
+        errs = [l for l in out.split("\n") if "error" in l][:10]
+        return ["FAIL own_table_consistent | lean/NeverModel/Model/Own.lean does not compile against the regenerated table (a member / tag / function named by the discipline no longer exists?) | " + " ; ".join(errs)], [], out
+    with Lock(os.path.join(SCRATCH, "lake.lock")):
+        rc, out = run(["lake", "env", "lean", "--run", os.path.join(VERIF, "checks", "own_probe.lean")], cwd=LEAN, timeout=600)
+    lines = out.split("\n")
+    return [l for l in lines if l.startswith("FAIL ")], [l for l in lines if l.startswith("WILD ")], out
+
+def search_own(exe, d, rules, seed, fails, known_sigs):
+    """a table theorem about the delete functions broke: look for a source on which the real compiler/VM leaves a block behind or
+    frees twice — the fixed seeds, corpus/leak and every sample as it is (the delete cascade runs on every one of them), then
+    type-level mutants"""
+    rng = Rng(seed ^ 0x0E16)
+    samples = ls.load_samples(REPO)
+    items = ls.gen_stream(rng, samples, 200)
+    items = [it for it in items if it["cls"] in ("hand", "valid", "type")]
+    results, _ = run_items(exe, items, d, 4, "own")
+    kinds = [ls.diag_kind(r["diag"], r["res"]) for r in results]
+    bs = ls.block_signatures(exe, results, kinds, rules)
+    head = "rows of the ownership table that fail:\n" + "\n".join(fails[:12])
+    for it, r, k, sigs in zip(items, results, kinds, bs):
+        if r["crash"]:
+            cs = ls.asan_signature(r["crash"])
+            if any(x in cs for x in ("use-after-free", "double-free", "bad-free")) and cs not in known_sigs:
+                return "%s\nsource name: %s\n--- source ---\n%s\n--- observed ---\n%s" % (head, it["name"], it["src"], r["crash"][-2000:])
+        fs = [f for f in classify_leaks(it, r, k, sigs, []) if f not in known_sigs]
+        if fs:
+            roots = [x for x in sigs if x[3]]
+            return "%s\nsource name: %s\n--- source ---\n%s\n--- observed ---\nleaked blocks: %d (%d bytes) after program_delete/vm_delete\n%s" % (
+                head, it["name"], it["src"], len(sigs), sum(x[1] for x in sigs),
+                "\n".join("  %s%d bytes  %s" % ("root " if x[3] else "     ", x[1], " <- ".join(x[2])) for x in sigs[:8]))
+    return None
+
 def search_new_row(exe, d, t, rules, seed, names):
     """a symbol outside the exception list lost its destructor (or a new one has none): look for a source on
     which the real parser leaks its value — templates, then prefixes of the samples (every symbol on bison's
@@ -170,6 +217,7 @@ def search_new_row(exe, d, t, rules, seed, names):
 P1 = "func main(a : int) -> int { 10 / a }"
 P1C = "func main(a : int) -> int { 10 / a } catch (division_by_zero) { 7 }"
 P2 = "func main() -> int { 1 }"
+PARGV = "func main(argv[argc] : string) -> int { argc }"
 
 def api_histories():
     """compile/execute/delete orders with several programs alive (DESIGN §7 item 8 first)"""
@@ -196,6 +244,10 @@ def api_histories():
                      ("new", 1), ("compile", 1, F2), ("prepare", 1, "main"), ("exec", 1, 0), ("exec", 1, 0), ("del", 1), ("vmdel", 0)]))
     H.append((None, [("new", 0), ("compile", 0, F1), ("new", 1), ("compile", 1, F2), ("prepare", 0, "main"), ("prepare", 1, "main"), ("vmnew", 0, 5000, 200),
                      ("exec", 1, 0), ("exec", 0, 0), ("del", 1), ("exec", 0, 0), ("del", 0), ("vmdel", 0)]))
+    # the command-line entry (nev_prepare_argc_argv) with a string-array main: once (must be clean), twice (the first argv object is dropped)
+    H.append((None, [("new", 0), ("compile", 0, PARGV), ("prepareargv", 0, "main", 2), ("vmnew", 0, 5000, 200), ("exec", 0, 0), ("vmdel", 0), ("del", 0)]))
+    H.append(("prepare-argv-twice", [("new", 0), ("compile", 0, PARGV), ("prepareargv", 0, "main", 2), ("prepareargv", 0, "main", 3), ("vmnew", 0, 5000, 200),
+                                     ("exec", 0, 0), ("vmdel", 0), ("del", 0)]))
     return H
 
 def check(tier, seed):
@@ -213,6 +265,25 @@ def check(tier, seed):
                                failing_rows=[s["name"] for s in fail], translator_s=round(time.time() - t0, 2))
     if t["problems"]:
         rep.violation("translator_broken_tie", "gen/parsertab.py cannot classify part of front/parser.y / scanner.l / types.h; the table theorems do not speak about the current tree:\n" + "\n".join(t["problems"]), False)
+    # ownership table of the delete functions / constructors (clang AST of every translation unit)
+    t0 = time.time()
+    ot = None
+    try:
+        with Lock(os.path.join(SCRATCH, "lake.lock")):
+            ot = owntab.generate()
+    except Exception as e:
+        rep.violation("own_translator_broken_tie", "gen/owntab.py failed on the current tree; the theorems about the delete functions (owned_fields_released, no_double_release, ...) do not speak about it:\n%s" % (str(e)[:2000],), False)
+    if ot is not None:
+        cov["own_table"] = dict(delete_functions=len(ot["dels"]), pointer_members=len(ot["fields"]), constructors=len(ot["ctors"]),
+                                retag_shapes=len(ot["retags"]), retag_sites=sum(r["count"] for r in ot["retags"]), late_store_rows=len(ot["late"]),
+                                builders=len(ot["builders"]), inlined_helpers=ot["helpers"], foreign_deleters=ot["foreign"], raw_constructors=ot["raw_ctors"],
+                                stores_through_unset_member=["%s: %s" % w for w in ot["wild"]], local_allocations_tracked=len(ot["locals"]),
+                                local_allocations_lost=["%s: %s = %s() lost on %s" % (r["fn"], r["var"], r["alloc"], ",".join(r["lost"])) for r in ot["locals"] if r["lost"]], translation_units=ot["files"], problems=ot["problems"],
+                                translator_s=round(time.time() - t0, 2))
+        if ot["problems"]:
+            rep.violation("own_translator_broken_tie", "gen/owntab.py cannot classify part of the delete functions / constructors of front/ and back/ (theorem own_table_consistent fails; owned_fields_released, no_double_release, retag_keeps_ownership_partial do not speak about the current tree):\n" + "\n".join(ot["problems"]), False)
+        for fn, path in ot["wild"]:
+            rep.finding("ctor-stores-through-unset-member:" + fn, "%s stores through `%s`, a pointer member of the node it has just malloc'ed and never set (write through an uninitialised pointer if the function is ever called)" % (fn, path))
     d = scratch_dir("c16")
     try:
         exe = ls.build(d)
@@ -220,6 +291,16 @@ def check(tier, seed):
         new_rows = [s["name"] for s in fail if s["name"] not in KNOWN_MISSING] + \
                    [s["name"] for s in fail if s["discardable"] and s["name"] not in KNOWN_LEAKING and s["name"] in KNOWN_MISSING]
         def search():
+            # which table broke?  the ownership table of the delete functions is diagnosed by Lean itself (checks/own_probe.lean)
+            fails, _, _ = own_probe()
+            cov["own_table_failing_rows"] = fails[:40]
+            if fails:
+                known = set(k["signature"] for k in rep.kf.get("known", []) if k["property"] == "C16")
+                found = search_own(exe, d, rules, seed, fails, known)
+                if found:
+                    return found
+                if not new_rows:
+                    return None
             names = new_rows or [s["name"] for s in t["syms"] if s["ownsHeap"] and not s["isToken"]]
             return search_new_row(exe, d, t, rules, seed, names)
         ok = proof_stage(rep, PROP_MODULE, search=search, required=REQUIRED)
@@ -235,10 +316,10 @@ def check(tier, seed):
             cov["obligations"] = cov.get("obligations", 0) + len(pthms)
             cov["discharged"] = cov.get("discharged", 0) + len(pthms) - len(bad) - len(missing)
         else:
-            repaired = set(s["name"] for s in fail) < set(KNOWN_MISSING) or not fail
+            repaired = set(s["name"] for s in fail) < set(KNOWN_MISSING) or not fail or (ot is not None and not ot["wild"])
             cov["pinned_counterexamples"] = dict(theorems=pthms, status="no longer hold" + (" (parser.y repaired: failing rows now %s)" % [s["name"] for s in fail] if repaired else ""))
             if repaired and ok:
-                print("note: %s no longer builds because parser.y gained destructors (failing rows now %s); not a violation" % (PINNED_MODULE, [s["name"] for s in fail]))
+                print("note: %s no longer builds because the tree was repaired (destructor rows failing now: %s; constructors storing through an unset member: %s); not a violation" % (PINNED_MODULE, [s["name"] for s in fail], ot["wild"] if ot else "?"))
             elif ok:
                 rep.violation("pinned_broken", "%s does not build although the failing rows are %s:\n%s" % (PINNED_MODULE, [s["name"] for s in fail], out[-1500:]), False)
         # ------------------------------------------------------------ failing rows replayed on I
